@@ -133,15 +133,36 @@ fn c12_mutate_ticks_two_confirms() {
 }
 
 fn confirm_from_any_state(jump: Option<i32>) {
+    confirm_from_state(jump, None)
+}
+
+/// `symbolic_slots`: only these slots hold arbitrary counters, all others are empty (None = all 64
+/// arbitrary). With all slots arbitrary one step costs CBMC minutes and a rotation-based shift is
+/// intractable rather than refuted; the window edges are where shifting can go wrong.
+fn confirm_from_state(jump: Option<i32>, symbolic_slots: Option<&[usize]>) {
+    confirm_from(jump, symbolic_slots, None)
+}
+
+/// `last_fixed`: concrete last tick (None = arbitrary). With an arbitrary last tick CBMC cannot fold
+/// `tick > last_tick` and the shift distance, and one step costs ~6 minutes instead of seconds.
+fn confirm_from(jump: Option<i32>, symbolic_slots: Option<&[usize]>, last_fixed: Option<u32>) {
     let mut pre = [TickMessages::default(); 64];
-    for slot in pre.iter_mut() {
+    for (index, slot) in pre.iter_mut().enumerate() {
+        if let Some(only) = symbolic_slots {
+            if !only.contains(&index) {
+                continue;
+            }
+        }
         let expected: usize = kani::any();
         let received: usize = kani::any();
         // ASSUME: representation invariant per slot: fresh (0,0) or received <= expected <= 4
         kani::assume(expected <= 4 && received <= expected);
         *slot = TickMessages { messages_count: expected, received };
     }
-    let last = RepliconTick::new(kani::any());
+    let last = RepliconTick::new(match last_fixed {
+        Some(last) => last,
+        None => kani::any(),
+    });
     let mut ticks = ServerMutateTicks { ticks: VecDeque::from(pre), last_tick: last };
     // The distance of the confirmed tick from the last tick is concrete per call (symbolic in the
     // thorough harness): with a symbolic distance a shifting implementation based on slice rotation
@@ -163,23 +184,30 @@ fn confirm_from_any_state(jump: Option<i32>) {
     assert!(ticks.ticks.len() == 64);
     // Window model: a newer tick shifts every slot by `delta` (slots falling out are forgotten,
     // skipped ticks are empty), an older one only touches its own slot.
-    let i: usize = kani::any();
-    kani::assume(i < 64);
-    let slot = ticks.ticks[i];
-    let expect = if newer {
-        if i == 0 {
-            TickMessages { messages_count: n, received: 1 }
-        } else if i < delta {
-            TickMessages::default()
+    // Concrete loop over all 64 slots (a symbolic index into the ring buffer is far more expensive).
+    let mut edge_tracked = false;
+    let mut i = 0;
+    while i < 64 {
+        let slot = ticks.ticks[i];
+        let expect = if newer {
+            if i == 0 {
+                TickMessages { messages_count: n, received: 1 }
+            } else if i < delta {
+                TickMessages::default()
+            } else {
+                pre[i - delta]
+            }
+        } else if i == delta {
+            TickMessages { messages_count: n, received: pre[i].received + 1 }
         } else {
-            pre[i - delta]
+            pre[i]
+        };
+        assert!(slot.messages_count == expect.messages_count && slot.received == expect.received);
+        if i >= 61 && slot.messages_count == 4 {
+            edge_tracked = true;
         }
-    } else if i == delta {
-        TickMessages { messages_count: n, received: pre[i].received + 1 }
-    } else {
-        pre[i]
-    };
-    assert!(slot.messages_count == expect.messages_count && slot.received == expect.received);
+        i += 1;
+    }
     let slot_of_t = if newer { 0 } else { delta };
     if slot_of_t < 64 {
         let after = ticks.ticks[slot_of_t];
@@ -187,38 +215,97 @@ fn confirm_from_any_state(jump: Option<i32>) {
     } else {
         assert!(!completed);
     }
-    kani::cover!(jump.is_some() || (newer && delta > 1 && delta < 64 && i > 0 && i < delta), "a skipped tick behind a jump inside the window");
+    kani::cover!(jump.is_some() || (newer && delta > 1 && delta < 64), "a jump inside the window");
     kani::cover!(jump.is_some() || (newer && delta >= 64), "jump beyond the window");
     kani::cover!(jump.is_some() || (!newer && delta > 0 && completed), "late message completes an older tick");
-    kani::cover!(i == 63 && slot.messages_count == 4, "oldest slot holds a tracked tick");
+    kani::cover!(edge_tracked || (newer && delta >= 3), "a slot at the old edge of the window holds a tracked tick (or it was shifted out)");
     core::mem::forget(ticks);
 }
 
-// HARNESS: c12_mutate_ticks_confirm_from_any_state
+// HARNESS: c12_mutate_ticks_step_plus_3
 // PROPS: C12
 // TIER: quick
-// TIMEOUT: 900
-// DRIVES: ServerMutateTicks::confirm, ServerMutateTicks::contains, ServerMutateTicks::mask, TickMessages::confirm
-// BOUNDS: ARBITRARY tracker state (64 slots with arbitrary counters under the representation invariant, arbitrary last tick); one confirm(t, n) at distance +1, +3, +63, +64, 0, -2, -63, -64 from the last tick (symbolic distance in the thorough harness); every slot compared with the shifted-window model; one inductive step covers confirmation sequences of any length; unwind 66
+// TIMEOUT: 1200
+// DRIVES: ServerMutateTicks::confirm, ServerMutateTicks::last_tick, TickMessages::confirm
+// BOUNDS: tracker state with ARBITRARY counters in the slots at both window edges (0, 1, 2, 61, 62, 63; the other slots empty); last tick 1000; one confirm(t, n) at distance +3 from the last tick, n in 1..=4 symbolic; every slot compared with the shifted-window model (one inductive step; a concrete distance keeps a rotation-based shift tractable, so that it is refuted rather than timing out); unwind 66
 #[kani::proof]
 #[kani::unwind(66)]
-fn c12_mutate_ticks_confirm_from_any_state() {
-    confirm_from_any_state(Some(1));
-    confirm_from_any_state(Some(3));
-    confirm_from_any_state(Some(63));
-    confirm_from_any_state(Some(64));
-    confirm_from_any_state(Some(0));
-    confirm_from_any_state(Some(-2));
-    confirm_from_any_state(Some(-63));
-    confirm_from_any_state(Some(-64));
+fn c12_mutate_ticks_step_plus_3() {
+    const EDGES: &[usize] = &[0, 1, 2, 61, 62, 63];
+    confirm_from(Some(3), Some(EDGES), Some(1000));
+}
+
+// HARNESS: c12_mutate_ticks_step_plus_63
+// PROPS: C12
+// TIER: thorough
+// TIMEOUT: 1200
+// DRIVES: ServerMutateTicks::confirm, ServerMutateTicks::last_tick, TickMessages::confirm
+// BOUNDS: tracker state with ARBITRARY counters in the slots at both window edges (0, 1, 2, 61, 62, 63; the other slots empty); last tick 1000; one confirm(t, n) at distance +63 from the last tick, n in 1..=4 symbolic; every slot compared with the shifted-window model (one inductive step; a concrete distance keeps a rotation-based shift tractable, so that it is refuted rather than timing out); unwind 66
+#[kani::proof]
+#[kani::unwind(66)]
+fn c12_mutate_ticks_step_plus_63() {
+    const EDGES: &[usize] = &[0, 1, 2, 61, 62, 63];
+    confirm_from(Some(63), Some(EDGES), Some(1000));
+}
+
+// HARNESS: c12_mutate_ticks_step_plus_64
+// PROPS: C12
+// TIER: thorough
+// TIMEOUT: 1200
+// DRIVES: ServerMutateTicks::confirm, ServerMutateTicks::last_tick, TickMessages::confirm
+// BOUNDS: tracker state with ARBITRARY counters in the slots at both window edges (0, 1, 2, 61, 62, 63; the other slots empty); last tick 1000; one confirm(t, n) at distance +64 from the last tick, n in 1..=4 symbolic; every slot compared with the shifted-window model (one inductive step; a concrete distance keeps a rotation-based shift tractable, so that it is refuted rather than timing out); unwind 66
+#[kani::proof]
+#[kani::unwind(66)]
+fn c12_mutate_ticks_step_plus_64() {
+    const EDGES: &[usize] = &[0, 1, 2, 61, 62, 63];
+    confirm_from(Some(64), Some(EDGES), Some(1000));
+}
+
+// HARNESS: c12_mutate_ticks_step_minus_2
+// PROPS: C12
+// TIER: thorough
+// TIMEOUT: 1200
+// DRIVES: ServerMutateTicks::confirm, ServerMutateTicks::last_tick, TickMessages::confirm
+// BOUNDS: tracker state with ARBITRARY counters in the slots at both window edges (0, 1, 2, 61, 62, 63; the other slots empty); last tick 1000; one confirm(t, n) at distance -2 from the last tick, n in 1..=4 symbolic; every slot compared with the shifted-window model (one inductive step; a concrete distance keeps a rotation-based shift tractable, so that it is refuted rather than timing out); unwind 66
+#[kani::proof]
+#[kani::unwind(66)]
+fn c12_mutate_ticks_step_minus_2() {
+    const EDGES: &[usize] = &[0, 1, 2, 61, 62, 63];
+    confirm_from(Some(-2), Some(EDGES), Some(1000));
+}
+
+// HARNESS: c12_mutate_ticks_step_minus_63
+// PROPS: C12
+// TIER: thorough
+// TIMEOUT: 1200
+// DRIVES: ServerMutateTicks::confirm, ServerMutateTicks::last_tick, TickMessages::confirm
+// BOUNDS: tracker state with ARBITRARY counters in the slots at both window edges (0, 1, 2, 61, 62, 63; the other slots empty); last tick 1000; one confirm(t, n) at distance -63 from the last tick, n in 1..=4 symbolic; every slot compared with the shifted-window model (one inductive step; a concrete distance keeps a rotation-based shift tractable, so that it is refuted rather than timing out); unwind 66
+#[kani::proof]
+#[kani::unwind(66)]
+fn c12_mutate_ticks_step_minus_63() {
+    const EDGES: &[usize] = &[0, 1, 2, 61, 62, 63];
+    confirm_from(Some(-63), Some(EDGES), Some(1000));
+}
+
+// HARNESS: c12_mutate_ticks_step_wrap_plus_3
+// PROPS: C12
+// TIER: thorough
+// TIMEOUT: 1200
+// DRIVES: ServerMutateTicks::confirm, ServerMutateTicks::last_tick, TickMessages::confirm
+// BOUNDS: tracker state with ARBITRARY counters in the slots at both window edges (0, 1, 2, 61, 62, 63; the other slots empty); last tick 4294967294; one confirm(t, n) at distance +3 from the last tick, n in 1..=4 symbolic; every slot compared with the shifted-window model (one inductive step; a concrete distance keeps a rotation-based shift tractable, so that it is refuted rather than timing out); unwind 66
+#[kani::proof]
+#[kani::unwind(66)]
+fn c12_mutate_ticks_step_wrap_plus_3() {
+    const EDGES: &[usize] = &[0, 1, 2, 61, 62, 63];
+    confirm_from(Some(3), Some(EDGES), Some(4294967294));
 }
 
 // HARNESS: c12_mutate_ticks_confirm_any_distance
 // PROPS: C12
-// TIER: thorough
-// TIMEOUT: 1800
+// TIER: quick
+// TIMEOUT: 1200
 // DRIVES: ServerMutateTicks::confirm, TickMessages::confirm
-// BOUNDS: as c12_mutate_ticks_confirm_from_any_state but with a SYMBOLIC distance anywhere within 2^30 of the last tick; unwind 66
+// BOUNDS: all 64 slots arbitrary and a SYMBOLIC distance anywhere within 2^30 of the last tick; unwind 66
 #[kani::proof]
 #[kani::unwind(66)]
 fn c12_mutate_ticks_confirm_any_distance() {
